@@ -338,3 +338,12 @@ def normal(s):
 for f in FAMILIES:
     f.normal = normal
     if f.sub == "rsolve": f.corr = corr_rsolve
+
+# Scope (not a finding): property C17 lists "zero in a divisor's domain" among the DOCUMENTED invalid inputs that surface as an
+# Err value; C02 speaks of well-formed models and C10's tree has no value where the divisor is 0.  A model whose divisor's bounds
+# contain 0 and which ModelValidator rejects with InvalidConstraint (exactly what the Coq validation model predicts: classes
+# mod_rejected / mod_zero_div) is therefore outside the scope of C01/C02/C10; any other answer on such a model is still judged.
+def _documented_zero_divisor(case, impl):
+    return impl.startswith("err InvalidConstraint") or impl in ("sols -", "sols") or impl.startswith("err Invalid")
+for _f in FAMILIES:
+    _f.scope_classes = {"mod_rejected": _documented_zero_divisor, "mod_zero_div": _documented_zero_divisor}
